@@ -482,6 +482,53 @@ def shatter_rewrites(ctx: Ctx) -> list[Ob]:
     return obs
 
 
+
+# ------------------------------------------------------------------------------------------ R12c
+def pattern_entry_subclasses(ctx: Ctx) -> list[Ob]:
+    """R12c -- a pattern entry matches one computation.
+
+    The chain matchers test ``isinstance(module, entry_class)``.  A rewrite rule is an identity about
+    what the *entry class* computes; a strict subclass that overrides ``forward`` (or the layer-side
+    evaluation methods) computes something else but is matched all the same -- making
+    ``TorchOuterSumParameter`` a subclass of ``TorchOuterProductParameter`` to share its constructor
+    lets ``ReduceSum(OuterSum(a, b))`` be fused into the einsum of ``ReduceSum(OuterProduct(a, b))``.
+    For every class named by an ``entries()`` of an optimisation pattern, no strict subclass in the
+    repository may redefine an evaluation method."""
+    import ast as _ast
+
+    from ..model import unparse as _unparse
+
+    repo = ctx.repo
+    out: list[Ob] = []
+    eval_methods = ("forward", "__call__", "sample", "integrate", "log_partition_function", "log_unnormalized_likelihood")
+    entries: dict[str, set[str]] = {}
+    for c in repo.classes.values():
+        if not c.module.name.startswith("cirkit.backend.torch.optimization"):
+            continue
+        f = c.methods.get("entries")
+        if f is None:
+            continue
+        for r in _ast.walk(f.node):
+            if isinstance(r, _ast.Return) and isinstance(r.value, (_ast.List, _ast.Tuple)):
+                for e in r.value.elts:
+                    k = repo.get_class(c.module, e)
+                    if k is not None:
+                        entries.setdefault(k.qualname, set()).add(c.name)
+    for q, pats in sorted(entries.items()):
+        k = repo.cls(q)
+        subs = [x for x in repo.subclasses(k) if x is not k]
+        bad = [(x, m) for x in subs for m in eval_methods if m in x.methods and not x.methods[m].is_abstract]
+        inst = f"entry:{k.name}"
+        if bad:
+            x, m = bad[0]
+            out.append(viol("R12c", q, inst, f"{x.name} is a subclass of the pattern entry class {k.name} (patterns {sorted(pats)}) and redefines {m}(): the matcher's isinstance test accepts it, and the rewrite that is an identity for {k.name} replaces a different computation", x.loc))
+        else:
+            out.append(ok("R12c", q, inst, f"no subclass redefines an evaluation method ({len(subs)} subclass(es)); matched by {sorted(pats)}", k.loc))
+    if not entries:
+        out.append(unres("R12c", "cirkit.backend.torch.optimization", "entries", "no pattern entries() found", ""))
+    return out
+
+
 if __name__ == "__main__":
     import sys
 
